@@ -1,6 +1,7 @@
 import OasisProofs.Helpers.MkvsHash
 import OasisProofs.Helpers.MkvsCommit
 import OasisProofs.Helpers.MkvsKey
+import OasisProofs.Helpers.MkvsKeyMerge
 /-
 C02 — the MKVS root hash depends only on the key/value contents.
 
@@ -208,11 +209,44 @@ theorem key_appendBit_eq_bits (k : Bytes) (keyLen : Nat) (v : Bool)
     (hk : k.length ≤ Iter.toBytesLen (keyLen + 1)) :
     Key.appendBit k keyLen v = Iter.appendBit k keyLen v := key_appendBit_eq k keyLen v hk
 
-/- TODO (stated, not proved): the transcriptions `Key.merge` and `Key.commonPrefixLen` equal
-   `packBits (take keyLen (toBits k) ++ take k2Len (toBits k2))` and
-   `lcp (take keyLen (toBits k)) (take k2Len (toBits k2))` for well-formed keys. Both equalities (and
-   the three proved above) are compared on every run between the real `node.Key` methods, the byte
-   transcription and the bit-list operations (mkvsdrv `-keys`). -/
+/-- `Key.Merge` on bytes (key.go:138: copy of the first key's `ToBytes(keyLen)` bytes, then every byte of
+the second key OR-ed in as a right-shifted chunk into the previous byte and a left-shifted chunk into
+the next one) is the concatenation of the two keys' bit strings truncated to their bit lengths,
+zero padded to bytes. This is the label `doRemove` stores when it collapses a node into its only
+child (remove.go:139) and the path the iterator accumulates (iterator.go:268). Any lengths. -/
+theorem key_merge_eq_bits (k : Bytes) (keyLen : Nat) (k2 : Bytes) (k2Len : Nat)
+    (hwf : KeyWF k keyLen) (hwf2 : KeyWF k2 k2Len) :
+    Key.merge k keyLen k2 k2Len = packBits ((toBits k).take keyLen ++ (toBits k2).take k2Len) :=
+  key_merge_eq k keyLen k2 k2Len hwf hwf2
+
+/-- `Key.CommonPrefixLen` on bytes (key.go:180: byte loop, `LeadingZeros8` of the XOR of the first
+differing pair, capped by both bit lengths) is the length of the longest common prefix of the two
+keys' bit strings truncated to their bit lengths. This is `cpLength` in `doInsert` (insert.go:99,
+204), which decides where an edge is split. Any byte strings and lengths, no well-formedness needed. -/
+theorem key_commonPrefixLen_eq_bits (k : Bytes) (keyLen : Nat) (k2 : Bytes) (k2Len : Nat) :
+    Key.commonPrefixLen k keyLen k2 k2Len = lcp ((toBits k).take keyLen) ((toBits k2).take k2Len) :=
+  key_commonPrefixLen_eq k keyLen k2 k2Len
+
+/-- The well-formedness hypothesis of `key_merge_eq_bits` is needed: bits of the first key beyond its
+bit length stay in the result (Go copies whole bytes). -/
+example : Key.merge [0xff] 4 [0x00] 4 ≠ packBits ((toBits [0xff]).take 4 ++ (toBits [0x00]).take 4) := by decide
+
+/-- Non-vacuity: a 12-bit label merged with a 7-bit label across a byte boundary. -/
+example : Key.merge [0xab, 0xc0] 12 [0xfe] 7 = [0xab, 0xcf, 0xe0] ∧
+    KeyWF [0xab, 0xc0] 12 ∧ KeyWF [0xfe] 7 := by
+  refine ⟨by decide, ⟨by decide, ?_⟩, ⟨by decide, ?_⟩⟩
+  · intro i hi
+    by_cases h : i < 16
+    · have : i = 12 ∨ i = 13 ∨ i = 14 ∨ i = 15 := by omega
+      rcases this with rfl | rfl | rfl | rfl <;> decide
+    · exact bitAt_beyond _ (by simp; omega)
+  · intro i hi
+    by_cases h : i < 8
+    · have : i = 7 := by omega
+      subst this; decide
+    · exact bitAt_beyond _ (by simp; omega)
+
+example : Key.commonPrefixLen [0xab, 0xc0] 12 [0xab, 0xd0, 0x01] 24 = 11 := by decide
 
 /-- The empty tree's root is the empty hash `H ""` (commit.go:157). -/
 theorem empty_root (H : Bytes → Bytes) : hashWith H .nil = H [] := rfl
